@@ -288,6 +288,16 @@ func (p *Prog) verifyInitGlobals(fn *ssa.Function, fr *Frame, st *State) {
 							}
 						}
 					case *ssa.Store:
+						if call, isCall := x.Val.(*ssa.Call); isCall && x.Addr == ssa.Value(g) {
+							// a freshly built error value (fmt.Errorf / errors.New) is non-nil
+							if f, ok := call.Call.Value.(*ssa.Function); ok && (funcKey(f) == "fmt.Errorf" || funcKey(f) == "errors.New") {
+								tid := vc.fresh("errtid", "Int")
+								ref := vc.fresh("errref", "Int")
+								vc.assumeRaw(tAnd(tLt("0", tid), tLt("0", ref)))
+								vc.storeAt(cur, gref, "0", Val{T: et, S: []Term{tid, ref, "0"}})
+								continue
+							}
+						}
 						c, isC := x.Val.(*ssa.Const)
 						if x.Addr != ssa.Value(g) || !isC || p.lay.size(et) > 8 {
 							problems = append(problems, "unsupported store: "+in.String())
